@@ -1,34 +1,45 @@
 ---------------------------- MODULE StreamCodec ----------------------------
-(* C04 / C07 (and the stream part of C05) — a receiver = transport adapter + decoder, in the shape
-   of the code:
+(* C04 / C05 / C07 — a receiver = transport adapter + decoder, in the shape of the code:
 
      adapter   tokio_util FramedRead (is_readable; decode -> Some: decode again, None: read more,
-               Err: end) and codec.rs WebSocketFramed (leftover ++ message; decode; Some/None/Err)
+               Err: report once, then end; at end of stream decode_eof) and codec.rs
+               WebSocketFramed (leftover ++ message; decode until None; Err: report, then end)
      decoder   the guard structure of every decoder in the tree: a wire stream is a sequence of
                *fields*; consecutive fields with the same `group` are awaited together and consumed
                atomically (e.g. salt+identity+fixed+variable header of Shadowsocks 2022, the four
                parts of the VMess request header, the Trojan request line, one datagram-in-stream),
                a `raw` field is consumed as its bytes arrive (Trojan / plain tails).
 
-   The layout (field lengths, plaintext yield, groups) is a parameter: TLC runs scaled layouts
-   exhaustively over every segmentation; recorded executions are validated with the real layout.
+   The stream `lay` (field lengths, plaintext yield, groups, where an attacker tampered with it) is
+   state, not a constant, so that one recorded trace can hold runs over many different streams.
+   TLC runs scaled layouts exhaustively over every segmentation, every end-of-stream point and
+   every tamper point; recorded executions are validated with the real lengths.
+
+   Tampering (C05): `lay.badFrom = i > 0` says the bytes of field i were altered, or bytes were
+   inserted / deleted / reordered / replayed / reflected at field i, so that under the ideal AEAD
+   of DESIGN 2.3 no sealed unit from field i on opens any more: the group holding field i and every
+   later group fail authentication when the decoder gets to them — at some moment between the decoder first
+   looking at them (e.g. a sealed length or a header comes first) and their being complete; the
+   moment is left open (parameter `e` of a decode call).
 
    Named deviations (Dev), each one a defect class found in the tree (DESIGN section 7); with
-   Dev = {} this is the design the property demands:
+   Dev = {} this is the design the properties demand:
      "SaltNone"      the call that consumes group 0 returns None although more is buffered  (D2)
      "ConnectLost"   handshake consumed in a call that cannot yet emit the connect item: the
                      next data is emitted as a plain relay item and the flow is refused      (D11)
      "NoGuard"       a group is read without checking that it has arrived: panic             (D6 D9 D10)
      "ShortGuard"    the availability check forgets the last ShortBy bytes of the group      (D7 D8 D10 D26)
-     "OnePerMessage" WebSocket adapter: one decode call per message, leftover waits          (D12)    *)
+     "OnePerMessage" WebSocket adapter: one decode call per message, leftover waits          (D12)
+     "GoOnAfterErr"  WebSocket adapter keeps decoding after a decode error                   (D12)
+     "ReleaseFirst"  plaintext is handed out before the tag is checked (anti-vacuity)              *)
 EXTENDS Integers, Sequences, FiniteSets, TLC
 
-CONSTANTS InitLayout,   \* the stream to receive: [fields, hs, datagram, exempt, adapter] (see below)
+CONSTANTS InitLayouts,  \* set of [fields, hs, datagram, exempt, adapter, enc, badFrom, stop0]
+          Slack,        \* a tampered stream may be this much longer than the original
           ShortBy,      \* bytes forgotten by a "ShortGuard" check
           Dev
 
-VARIABLES lay,          \* the layout of the stream being received (never changes during a run; a
-                        \* variable so that one recorded trace can hold runs over different streams)
+VARIABLES lay,          \* the stream being received (never changes during a run)
           arrived,      \* bytes the transport has delivered
           buf,          \* bytes in the adapter's buffer (arrived but not consumed)
           nf,           \* next field to consume (1-based)
@@ -40,16 +51,20 @@ VARIABLES lay,          \* the layout of the stream being received (never change
           lost,         \* "ConnectLost" armed
           failed,       \* the adapter reported a decode error
           panicked,
+          eof,          \* the transport reported end of stream
+          ended,        \* the adapter reported end of stream
           firstRead,    \* size of the first delivery
-          hist          \* sizes of the deliveries so far (scenario export)
+          hist          \* sizes of the deliveries so far, 0 = end of stream (scenario export)
 
-vars == <<lay, arrived, buf, nf, rawTaken, readable, plain, items, connect, lost, failed, panicked, firstRead, hist>>
+vars == <<lay, arrived, buf, nf, rawTaken, readable, plain, items, connect, lost, failed, panicked, eof, ended, firstRead, hist>>
 
 Fields      == lay.fields     \* sequence of [len, plain, group, raw, dgram]
 HsGroup     == lay.hs         \* group whose completion makes the connect item due; -1 = none
 Datagram    == lay.datagram   \* TRUE: one item per "dgram" group, one group per decode call
 ExemptFirst == lay.exempt     \* Shadowsocks 2022: bytes that must be in the first read (0 = no such rule)
 Adapter     == lay.adapter    \* "framed" or "ws"
+BadFrom     == lay.badFrom    \* first tampered field, 0 = none
+\* lay.stop0: the call that consumes group 0 returns right after it (Shadowsocks 2022 header call)
 NF == Len(Fields)
 RECURSIVE SumLen(_, _)
 SumLen(i, j) == IF i > j THEN 0 ELSE Fields[i].len + SumLen(i + 1, j)
@@ -62,16 +77,19 @@ GroupEnd(i) == IF i < NF /\ Fields[i + 1].group = Fields[i].group THEN GroupEnd(
 GroupLen(i) == SumLen(i, GroupEnd(i))
 GroupPlain(i) == SumPlain(i, GroupEnd(i))
 Min(a, b) == IF a < b THEN a ELSE b
+\* the group starting at field i holds or follows the tamper point (raw fields carry no integrity)
+Bad(i) == BadFrom > 0 /\ GroupEnd(i) >= BadFrom /\ ~Fields[i].raw
 
 (* ---- what is deliverable from the first `n` bytes (the abstract, user-level meaning) ---------- *)
 RECURSIVE Deliv(_, _, _)
-\* returns <<plain, items, connect>> ; i = next field, n = bytes left
+\* returns <<plain, items, connect>> ; i = next field, n = bytes left; stops at the tamper point
 Deliv(i, n, acc) ==
   IF i > NF THEN acc
   ELSE IF Fields[i].raw
        THEN LET got == Min(n, Fields[i].len) IN
             IF got < Fields[i].len THEN <<acc[1] + got, acc[2], acc[3]>>
             ELSE Deliv(i + 1, n - got, <<acc[1] + got, acc[2], acc[3] \/ Fields[i].group = HsGroup>>)
+       ELSE IF Bad(i) THEN acc
        ELSE IF n >= GroupLen(i)
             THEN Deliv(GroupEnd(i) + 1, n - GroupLen(i),
                        <<acc[1] + GroupPlain(i), acc[2] + (IF Fields[i].dgram THEN 1 ELSE 0),
@@ -85,7 +103,10 @@ Guard(i) == IF "ShortGuard" \in Dev /\ GroupLen(i) > ShortBy THEN GroupLen(i) - 
 
 RECURSIVE Call(_)
 Call(s) ==
-  IF s.nf > NF \/ s.buf = 0 THEN s
+  IF s.buf = 0 THEN s
+  ELSE IF s.nf > NF
+       \* BadFrom = NF + 1: bytes appended after the end of the stream; refused at some point
+       THEN IF BadFrom = NF + 1 /\ s.early THEN [s EXCEPT !.res = "err"] ELSE s
   ELSE IF Fields[s.nf].raw
        THEN LET got == Min(s.buf, Fields[s.nf].len - s.raw)
                 done == s.raw + got = Fields[s.nf].len
@@ -94,6 +115,8 @@ Call(s) ==
                               !.nf = IF done THEN s.nf + 1 ELSE s.nf,
                               !.connect = @ \/ (done /\ Fields[s.nf].group = HsGroup),
                               !.res = "some"])
+       ELSE IF Bad(s.nf) /\ "ReleaseFirst" \notin Dev
+            THEN IF s.early \/ s.buf >= GroupLen(s.nf) THEN [s EXCEPT !.res = "err"] ELSE s
        ELSE IF "NoGuard" \in Dev /\ s.buf < GroupLen(s.nf) THEN [s EXCEPT !.res = "panic"]
        ELSE IF s.buf < Guard(s.nf) THEN s                                  \* wait for the rest of the group
        ELSE IF s.buf < GroupLen(s.nf) THEN [s EXCEPT !.res = "panic"]      \* ShortGuard let it through
@@ -111,54 +134,79 @@ Call(s) ==
                                  !.res = IF yld THEN "some" ELSE @]
               IN IF "SaltNone" \in Dev /\ i = 1 /\ ~yld THEN [u EXCEPT !.res = "none"]     \* returns right after the salt
                  ELSE IF Datagram /\ Fields[i].dgram THEN u                                 \* one datagram per call
+                 ELSE IF lay.stop0 /\ i = 1 THEN u                                          \* 2022: header call returns
                  ELSE Call(u)
 
-DecodeCall ==
-  LET s0 == [nf |-> nf, buf |-> buf, raw |-> rawTaken, plain |-> plain, items |-> items,
+DecodeCall(e) ==
+  LET s0 == [early |-> e, nf |-> nf, buf |-> buf, raw |-> rawTaken, plain |-> plain, items |-> items,
              connect |-> connect, lost |-> lost, res |-> "none"]
   IN IF nf = 1 /\ ExemptFirst > 0 /\ buf < ExemptFirst
        THEN IF buf < Fields[1].len THEN s0 ELSE [s0 EXCEPT !.res = "err"]  \* 2022: header not in the first read
        ELSE LET r == Call(s0)
                 \* "ConnectLost": the handshake group was consumed but the connect item is not out yet
                 arm == "ConnectLost" \in Dev /\ HsGroup > 0 /\ r.nf > 1 /\ ~r.connect /\ r.res # "panic"
-            IN [r EXCEPT !.lost = @ \/ arm]
+            IN IF r.res = "err"
+                 \* the decoders collect a call's plaintext in a local buffer and drop it when the call fails
+                 THEN [r EXCEPT !.plain = plain, !.items = items, !.connect = connect]
+                 ELSE [r EXCEPT !.lost = @ \/ arm]
 
 (* ---- adapter ----------------------------------------------------------------------------------- *)
 Init ==
-  /\ lay = InitLayout
+  /\ lay \in InitLayouts
   /\ arrived = 0 /\ buf = 0 /\ nf = 1 /\ rawTaken = 0 /\ readable = FALSE
   /\ plain = 0 /\ items = 0 /\ connect = FALSE /\ lost = FALSE
-  /\ failed = FALSE /\ panicked = FALSE /\ firstRead = 0 /\ hist = <<>>
+  /\ failed = FALSE /\ panicked = FALSE /\ eof = FALSE /\ ended = FALSE /\ firstRead = 0 /\ hist = <<>>
 
-Dead == failed \/ panicked
+Dead == failed \/ panicked \/ ended
 
 \* the transport delivers the next k bytes (a read, a TLS record, a QUIC read, a WebSocket message)
 Deliver(k) ==
-  /\ ~readable /\ ~Dead /\ arrived + k <= Total
+  /\ ~readable /\ ~Dead /\ ~eof /\ arrived + k <= Total + (IF BadFrom > 0 THEN Slack ELSE 0)
   /\ arrived' = arrived + k /\ buf' = buf + k /\ readable' = TRUE
   /\ firstRead' = IF arrived = 0 THEN k ELSE firstRead
   /\ hist' = Append(hist, k)
-  /\ UNCHANGED <<lay, nf, rawTaken, plain, items, connect, lost, failed, panicked>>
+  /\ UNCHANGED <<lay, nf, rawTaken, plain, items, connect, lost, failed, panicked, eof, ended>>
+
+\* the peer closes: FramedRead runs decode_eof (decode; leftover bytes are an error), the WebSocket
+\* adapter just ends
+Eof ==
+  /\ ~readable /\ ~Dead /\ ~eof
+  /\ eof' = TRUE /\ hist' = Append(hist, 0)
+  /\ IF Adapter = "ws" THEN ended' = TRUE /\ readable' = FALSE ELSE readable' = TRUE /\ UNCHANGED ended
+  /\ UNCHANGED <<lay, arrived, buf, nf, rawTaken, plain, items, connect, lost, failed, panicked, firstRead>>
 
 Decode ==
   /\ readable /\ ~Dead
-  /\ LET r == DecodeCall IN
+  /\ \E e \in BOOLEAN :
+     LET r == DecodeCall(e)
+         goOn == Adapter = "ws" /\ "GoOnAfterErr" \in Dev
+     IN
        /\ nf' = r.nf /\ buf' = r.buf /\ rawTaken' = r.raw /\ plain' = r.plain /\ items' = r.items
        /\ connect' = r.connect /\ lost' = r.lost
-       /\ failed' = (r.res = "err") /\ panicked' = (r.res = "panic")
+       /\ failed' = ((r.res = "err" /\ ~goOn) \/ (eof /\ r.res = "none" /\ r.buf > 0))
+       /\ panicked' = (r.res = "panic")
+       /\ ended' = (eof /\ r.res = "none" /\ r.buf = 0)
        /\ readable' = IF Adapter = "ws" /\ "OnePerMessage" \in Dev THEN FALSE ELSE r.res = "some"
-  /\ UNCHANGED <<lay, arrived, firstRead, hist>>
+  /\ UNCHANGED <<lay, arrived, eof, firstRead, hist>>
 
-Next == Decode \/ \E k \in 1..(Total - arrived) : Deliver(k)
+Next == Decode \/ Eof \/ \E k \in 1..(Total + Slack - arrived) : Deliver(k)
 Spec == Init /\ [][Next]_vars
 
-(* ---- the property ------------------------------------------------------------------------------ *)
+(* ---- the properties ---------------------------------------------------------------------------- *)
 Exempt == ExemptFirst > 0 /\ firstRead < ExemptFirst
 D == Deliverable(arrived)
-\* once the adapter waits for input, everything whose last byte has arrived has been released
+\* C04: once the adapter waits for input, everything whose last byte has arrived has been released
 NoStall == (~readable /\ ~Dead) => (plain = D[1] /\ items = D[2] /\ connect = D[3])
+\* C04/C05: never more than what the sender wrote up to the tamper point
 NeverAhead == plain <= D[1] /\ items <= D[2] /\ (connect => D[3])
-NoErrorOnValid == failed => Exempt
+\* C04: a valid stream is never refused (2022 first-read rule and truncation by the peer excepted)
+NoErrorOnValid == failed => (Exempt \/ BadFrom > 0 \/ eof)
+\* C07
 NoPanic == ~panicked
-Complete == (arrived = Total /\ ~readable /\ ~Dead) => plain = SumPlain(1, NF)
+Complete == (arrived = Total /\ ~readable /\ ~Dead /\ BadFrom = 0) => plain = SumPlain(1, NF)
+\* C05: nothing is released once an error has been reported (action property)
+ErrFinal == [][failed => (plain' = plain /\ items' = items)]_vars
+\* C05: a tampered stream is refused once the tampered unit has arrived completely
+TamperDetected ==
+  (BadFrom > 0 /\ BadFrom <= NF /\ lay.enc /\ ~readable /\ ~Dead /\ ~Exempt) => arrived < SumLen(1, GroupEnd(BadFrom))
 =============================================================================
